@@ -725,6 +725,13 @@ def outcome_of_exc(e: BaseException):
     return ("rej", u[4:]) if u.startswith("rej:") else (u,)
 
 
+def call_label(step: dict) -> str:
+    """the entry point as it is really called (from_msgpack / from_json of the same object for a format step)"""
+    if step.get("fmt"):
+        return step["call"].split(".")[0] + "." + FMT_CALL[step["fmt"]] + "<encoded>"
+    return step["call"]
+
+
 def do_decode(ns: dict, step: dict):
     """-> ("inst", class name) | ("missing",) | ("notfound",) | ("exc:<Name>",)"""
     obj, meth = step["call"].split(".")
@@ -928,7 +935,7 @@ def run_history(h: Hist):
                 # a field dispatcher names the problem (ValueError, /repo 60866ea); without a key nobody accepts the input
                 exp = ("notdict",) if s["field"] else ("notfound",)
                 if obs != exp and (s["field"] or obs[0] == "inst"):
-                    fails.append((k, f"{step['call']}({step['input']!r}) -> {fmt(obs)}, expected {fmt(exp)}", fmt(exp), fmt(obs),
+                    fails.append((k, f"{call_label(step)}({step['input']!r}) -> {fmt(obs)}, expected {fmt(exp)}", fmt(exp), fmt(obs),
                                   {"kind": "non-mapping-input", "wiring": s["wiring"]}))
                 continue
             shadow = shadowed(ns, n_classes) if not s["field"] else set()
@@ -940,7 +947,7 @@ def run_history(h: Hist):
                 if exp is not None and exp != obs:
                     kf = exp[0] == "keyerr" and obs == ("notfound",)
                     kf2 = obs == ("crash",) and site_has_none(s) and s["sup"] and s["tagger"] and s["wiring"] == "holder"
-                    fails.append((k, f"{step['call']}({step['input']}) -> {fmt(obs)}, expected {fmt(exp)}",
+                    fails.append((k, f"{call_label(step)}({step['input']}) -> {fmt(obs)}, expected {fmt(exp)}",
                                   fmt(exp), fmt(obs), {"kind": "variant-keyerror-misreported" if kf else
                                                        "optional-union-nonetype-variant" if kf2 else "field-dispatch", "wiring": s["wiring"]}))
             else:
@@ -948,7 +955,7 @@ def run_history(h: Hist):
                 if why is not None:
                     should = acc_sub if acc_sub else acc_sup
                     sig = {"kind": "nofield-dispatch", "wiring": s["wiring"]}
-                    fails.append((k, f"{step['call']}({step['input']}) -> {fmt(obs)}: {why}",
+                    fails.append((k, f"{call_label(step)}({step['input']}) -> {fmt(obs)}: {why}",
                                   "one of " + ",".join(c.__name__ for c in should) if should else "SuitableVariantNotFoundError",
                                   fmt(obs), sig))
         if COLLECT_WALKS[0] > 0:
@@ -1523,8 +1530,11 @@ def run(ctx: vlib.Ctx):
         "whose own from_dict leaks a KeyError; sites = Config root / Annotated holder field / holder with 2-3 discriminated "
         "fields (one call, several sites) / BasicDecoder, over one class or a Union, 10 annotation shapes, holders in the "
         "classes' module or in another one, call-time dialects incl. first calls (one model site per holder x dialect), "
-        "codecs with default_dialect; inputs: present / future / unknown / absent keys, non-mapping inputs; 25% of the "
-        "histories have duplicate tags (correspondence only). Plus 14 fixed edge histories, the stream inside the known-"
+        "codecs with default_dialect, FORMATS (35% of the histories: mixin roots / holders that also provide from_msgpack and "
+        "orjson's from_json; calls in the three formats interleaved with definitions - one shared registry per class-level "
+        "dispatcher, per-format variant methods compiled on demand, model op DecodeF); inputs: present / future / unknown / "
+        "absent keys, non-mapping inputs; 25% of the "
+        "histories have duplicate tags (correspondence only). Plus 16 fixed edge histories, the stream inside the known-"
         "former finding region (plain holders, no-field) and two probes (several taggers in one holder, Optional-Union).")
     ctx.assumptions += [
         "tag uniqueness is required only for the tags the input carries, at the dispatchers that read them, among the classes "
